@@ -203,8 +203,94 @@ func main() {
 		}
 	}
 
+	// 3b. list payloads and raw values of EXACTLY the boundary sizes (header-size arithmetic: intsize/headsize/puthead),
+	//     and agreement of the three encoder entry points (EncodeToBytes / Encode(w) / EncodeToReader).
+	sizes := []int{54, 55, 56, 57, 254, 255, 256, 257, 65534, 65535, 65536, 65537}
+	goOnly := []int{}
+	if run.Thorough() {
+		goOnly = []int{1<<24 - 1, 1 << 24, 1<<24 + 1}
+	}
+	strOfEncLen := func(n int) []byte { // a string whose ENCODING is exactly n bytes long
+		for l := n - 1; l >= 0 && l >= n-5; l-- {
+			b := bytes.Repeat([]byte{0x99}, l)
+			if e, _ := rlp.EncodeToBytes(b); len(e) == n {
+				return b
+			}
+		}
+		return nil
+	}
+	for _, n := range append(append([]int{}, sizes...), goOnly...) {
+		inner := strOfEncLen(n)
+		if inner == nil {
+			continue
+		}
+		vals := []interface{}{
+			[]interface{}{inner},                                  // list payload exactly n
+			[]interface{}{[]interface{}{inner}},                   // nested
+			[]interface{}{inner[:len(inner)/2], inner[len(inner)/2:]}, // two strings (payload n+header delta)
+		}
+		if raw, err := rlp.EncodeToBytes(inner); err == nil {
+			vals = append(vals, []interface{}{rlp.RawValue(raw)}, rlp.RawValue(raw))
+		}
+		for _, v := range vals {
+			e1, err1 := rlp.EncodeToBytes(v)
+			var buf bytes.Buffer
+			err2 := rlp.Encode(&buf, v)
+			_, rd, err3 := rlp.EncodeToReader(v)
+			var e3 []byte
+			if err3 == nil {
+				e3, _ = io.ReadAll(rd)
+			}
+			if err1 != nil || err2 != nil || err3 != nil || !bytes.Equal(e1, buf.Bytes()) || !bytes.Equal(e1, e3) {
+				run.Violate("encoder-paths-differ", fmt.Sprintf("size=%d", n), map[string]interface{}{"payload_size": n},
+					fmt.Sprintf("EncodeToBytes/Encode/EncodeToReader disagree at boundary size %d (lens %d/%d/%d)", n, len(e1), buf.Len(), len(e3)))
+			}
+			run.Count("boundary-enc")
+			big := false
+			for _, g := range goOnly {
+				big = big || g == n
+			}
+			if big {
+				// too large for the line protocol: judge the round trip directly on the real code
+				var back interface{}
+				if err := rlp.DecodeBytes(e1, &back); err != nil {
+					run.Violate("roundtrip-boundary", fmt.Sprintf("size=%d", n), map[string]interface{}{"payload_size": n}, "decode(encode(v)) failed: "+err.Error())
+				} else if re, _ := rlp.EncodeToBytes(back); !bytes.Equal(re, e1) {
+					run.Violate("roundtrip-boundary", fmt.Sprintf("size=%d", n), map[string]interface{}{"payload_size": n}, "re-encoding differs")
+				}
+				continue
+			}
+			var it interface{}
+			if rv, ok := v.(rlp.RawValue); ok {
+				_ = rlp.DecodeBytes(rv, &it)
+			} else {
+				it = deRaw(v)
+			}
+			run.Case("enc "+render(it), "ok "+hx.Hex(e1))
+			doDec(e1)
+		}
+	}
+
 	typed(run, rng.Fork(3))
 	run.Finish()
+}
+
+// deRaw replaces RawValue leaves by the item they encode (for rendering the expected item).
+func deRaw(v interface{}) interface{} {
+	switch x := v.(type) {
+	case rlp.RawValue:
+		var it interface{}
+		_ = rlp.DecodeBytes(x, &it)
+		return it
+	case []interface{}:
+		out := make([]interface{}, len(x))
+		for i := range x {
+			out[i] = deRaw(x[i])
+		}
+		return out
+	default:
+		return v
+	}
 }
 
 // ---------------------------------------------------------------------------------------------------------------
